@@ -1,6 +1,7 @@
 SPECIFICATION Spec
 CONSTANTS MaxDecl = 3
  MaxDepth = 3
+ MaxOpen = 3
  Variant = "ok"
  Emit = FALSE
 INVARIANTS SameBinding Balanced
